@@ -1,11 +1,4 @@
-"""Per-property manifest wording (kept apart from the run-time config)."""
+"""Manifest-level constants. Per-property wording lives in lib/cfg/Cxx.py (TEXT)."""
+from props import TEXT  # noqa: F401
 HOOK_COMMITS = []
 NOT_YET = {}
-TEXT = {
-    "C09": {
-        "text": "Lean 4 theorems: the model of the Rust Salsa20 (in-place indexed quarter rounds, 32-bit counter with carry, lazy 64-byte buffer) equals DJB's Salsa20/20 with the CASC nonce rule for every key, IV, block index and message length (the counter carry is covered by the proof, no run can reach it); decrypt∘encrypt = id; piecewise = whole for every split; the 12-arm lookup3 tail and block loop equal lookup3.c hashlittle/hashlittle2 for every seed and every length < 2^32; ARC4 round-trip/piecewise/key-length. The models are tied to the code by a differential run over every length 0..=200 (thorough 0..=1024), every split point, bad IV/key lengths; a disagreement on these lines is reported as a violation with the request as replay because the Lean side is the published algorithm. SIMD helpers and MD5 keys: accelerated == scalar == std for every buffer length 0..=200 on every CPU feature subset of the host (run only).",
-        "design_ref": "DESIGN.md §6 C09, Appendix A.6",
-        "note": "Trusted: Lean kernel; transcriptions Spec/Salsa20, Spec/Lookup3 (checked against published vectors); hand-written models tied by differential run only; SIMD intrinsics, md-5 crate and memory safety not modelled.",
-        "technique": "Lean 4 proof (model = published spec, induction over message / block count) + differential correspondence run + known-answer oracle",
-    },
-}
